@@ -92,7 +92,7 @@ func plainEnds(s string) bool {
 
 func runC15(ctx *Ctx) error {
 	r, res := ctx.Rng, ctx.Res
-	res.Rule = "on loopback TCP: (A) DialContext against this package's Listen/Accept for callsigns and passwords from three families (callsign-like, printable ASCII incl. inner spaces, arbitrary bytes without CR), both sides writing a payload immediately after login; (B) the library client against a scripted server that splits prompts at random places, sends banner and blank lines, garbage lines without the keywords, and coalesces the payload with the password prompt or sends everything in one write; (C) the library server against a scripted client that sends callsign, password and payload in one write or in random pieces; every observation compared with the model (what each side sent, what was left for Read) and judged by the property (RemoteCall = the dialler's callsign, payloads byte-exact and complete); (D) DialContext / DialTimeout / DialURL(dial_timeout) / DialURLContext with a configured time-out and a later context deadline against servers that stay silent, send half a prompt, send garbage lines periodically, close at once or close after the first prompt: the call must return an error no later than its deadline (+1.5 s tolerance for scheduling on a loaded machine), and a context cancelled without deadline ends the dial as well. Non-trivial: scenario with a payload of at least one byte in each direction; distinct by scenario parameters."
+	res.Rule = "on loopback TCP: (A) DialContext against this package's Listen/Accept for callsigns and passwords from three families (callsign-like, printable ASCII incl. inner spaces, arbitrary bytes without CR), both sides writing a payload immediately after login; (B) the library client against a scripted server that splits prompts at random places, sends banner and blank lines, garbage lines without the keywords, and coalesces the payload with the password prompt or sends everything in one write; (C) the library server against a scripted client that sends callsign, password and payload in one write or in random pieces; every observation compared with the model (what each side sent, what was left for Read) and judged by the property (RemoteCall = the dialler's callsign, payloads byte-exact and complete); (D) DialContext / DialTimeout / DialURL(dial_timeout) / DialURLContext with a configured time-out and a later context deadline against servers that stay silent, send half a prompt, send garbage lines periodically, close at once, close after the first prompt, or prompt and then never read the (24 MiB) answer: the call must return an error no later than its deadline (+1.5 s tolerance for scheduling on a loaded machine), and a context cancelled without deadline ends the dial as well. Non-trivial: scenario with a payload of at least one byte in each direction; distinct by scenario parameters."
 	if !ardLoopbackOK() {
 		res.Fail(Failure{Kind: "broken", Site: "environment", Detail: "loopback TCP is not available: the telnet package cannot be exercised"})
 		return nil
@@ -366,12 +366,12 @@ func runC15(ctx *Ctx) error {
 	}
 
 	// ---------- (D) the dial deadline
-	behaviours := []string{"silent", "half-prompt", "garbage-forever", "close-at-once", "close-after-prompt", "callsign-prompt-only"}
-	nd := ctx.N(18, 72)
+	behaviours := []string{"silent", "half-prompt", "garbage-forever", "close-at-once", "close-after-prompt", "callsign-prompt-only", "prompt-then-stop-reading"}
+	nd := ctx.N(21, 84)
 	hows := []string{"context", "timeout", "url", "cancel", "url-and-later-context-deadline", "dialer-timeout-and-later-context-deadline"}
 	for i := 0; i < nd; i++ {
-		how := hows[i%len(hows)]
-		beh := behaviours[(i+i/len(hows))%len(behaviours)]
+		beh := behaviours[i%len(behaviours)]
+		how := hows[(i+i/len(behaviours))%len(hows)]
 		limit := time.Duration(150+r.Intn(250)) * time.Millisecond
 		desc := fmt.Sprintf("D server=%s via=%s limit=%v", beh, how, limit)
 		ctx.Mark(desc)
@@ -407,7 +407,9 @@ func runC15(ctx *Ctx) error {
 				c.Write([]byte("Callsign :\r"))
 				c15ReadLine(c, time.Second)
 				return
-			case "callsign-prompt-only":
+			case "callsign-prompt-only", "prompt-then-stop-reading":
+				// (the second: the dialler's answer is far bigger than the socket buffers and the
+				// server never reads it: the dialler is stuck in a write when its time is up)
 				c.Write([]byte("Callsign :\r"))
 			}
 			<-stop
@@ -418,6 +420,10 @@ func runC15(ctx *Ctx) error {
 			elapsed time.Duration
 		}
 		och := make(chan out, 1)
+		mycall := "LA5NTA"
+		if beh == "prompt-then-stop-reading" {
+			mycall = strings.Repeat("A", 24<<20)
+		}
 		start := time.Now()
 		go func() {
 			var c net.Conn
@@ -425,10 +431,10 @@ func runC15(ctx *Ctx) error {
 			switch how {
 			case "context":
 				dctx, cancel := context.WithTimeout(context.Background(), limit)
-				c, err = telnet.DialContext(dctx, ln.Addr().String(), "LA5NTA", "secret")
+				c, err = telnet.DialContext(dctx, ln.Addr().String(), mycall, "secret")
 				cancel()
 			case "timeout":
-				c, err = telnet.DialTimeout(ln.Addr().String(), "LA5NTA", "secret", limit)
+				c, err = telnet.DialTimeout(ln.Addr().String(), mycall, "secret", limit)
 			case "url":
 				u, perr := transport.ParseURL(fmt.Sprintf("telnet://LA5NTA:secret@%s/wl2k?dial_timeout=%dms", ln.Addr().String(), limit.Milliseconds()))
 				if perr != nil {
@@ -460,7 +466,7 @@ func runC15(ctx *Ctx) error {
 			default:
 				dctx, cancel := context.WithCancel(context.Background())
 				go func() { time.Sleep(limit); cancel() }()
-				c, err = telnet.DialContext(dctx, ln.Addr().String(), "LA5NTA", "secret")
+				c, err = telnet.DialContext(dctx, ln.Addr().String(), mycall, "secret")
 				cancel()
 			}
 			och <- out{c, err, time.Since(start)}
